@@ -12,12 +12,13 @@ for pid in ALL:
     if pid not in props.PROPS:
         continue
     P = props.PROPS[pid]
+    cmd = P.get("cmd", f"bin/check {pid}")
     checks.append({
         "property_id": pid,
-        "quick_cmd": f"bin/check {pid} --tier quick",
-        "thorough_cmd": f"bin/check {pid} --tier thorough",
+        "quick_cmd": f"{cmd} --tier quick",
+        "thorough_cmd": f"{cmd} --tier thorough",
         "evidence_file": f"/verif/evidence/{pid}.json",
-        "replay_cmd_template": f"bin/check {pid} --replay {{path}}",
+        "replay_cmd_template": f"{cmd} --replay {{path}}",
         "engine": "tlc-trace",
         "level_claimed": {"category": "model_checking", "text": TEXT.get(pid, props.DEFAULT_TEXT), "design_ref": f"DESIGN.md section 6, {pid}"},
         "level_note": "Trusted base: TLC; the API-level model of futures-channel/futures-util/async-lock/Arc in spec/Hannibal.tla (validated by the conformance runs themselves); the deterministic executor and the feature-gated shim (src/verif.rs). Exhaustive only within the bounds of the listed MC configurations; beyond them seeded random programs/schedules/faults, every trace validated by TLC.",
